@@ -769,7 +769,7 @@ _alloc (void **pdst, int len)
     }
     /*  Allocate an extra byte to NUL-terminate the memory allocation.
      */
-    if (!(p = malloc (len + 1))) {
+    if (!(p = malloc ((size_t) len + 1))) {
         return (0);
     }
     p[len] = '\0';
